@@ -17,6 +17,8 @@ def handleLine (line : String) : M Unit := do
   | ["undo"] => handleUndo line
   | "obs" :: rest => handleObs line rest
   | "stump" :: rest => handleStump line rest
+  | "cupdate" :: rest => handleCUpdate line rest
+  | "cundo" :: rest => handleCUndo line rest
   | ["enc", tag, res] => count ("enc:" ++ tag) line (res == "accepted")
   | _ => parseError line
 
